@@ -31,6 +31,16 @@ class Tactic:
         raise NotImplementedError
 
 
+def check_result(goal, pt):
+    """The proof term a tactic returns must prove the goal it was given:
+    same proposition, no hypothesis that the goal does not have. Methods
+    call the tactic in search and in apply, so a step whose result would
+    not fit the goal line is neither suggested nor applied.
+
+    """
+    assert pt.th.can_prove(goal), "tactic: result does not prove the goal"
+    return pt
+
 class MacroTactic(Tactic):
     """Construct a tactic from a macro.
     
@@ -108,9 +118,9 @@ class rule(Tactic):
         if set(term.get_svars(th.assums)) != set(th.prop.get_svars()) or \
            set(term.get_stvars(th.assums)) != set(th.prop.get_stvars()) or \
            not matcher.is_pattern_list(th.assums, []):
-            return apply_theorem(th_name, *pts, inst=inst)
+            return check_result(goal, apply_theorem(th_name, *pts, inst=inst))
         else:
-            return apply_theorem(th_name, *pts)
+            return check_result(goal, apply_theorem(th_name, *pts))
 
 class resolve(Tactic):
     """Given any goal, a theorem of the form ~A, and an existing fact A,
@@ -125,7 +135,7 @@ class resolve(Tactic):
         assert th.prop.is_not(), "resolve: prop is not a negation"
 
         # Checking that the theorem matches the fact is done here.
-        return ProofTerm('resolve_theorem', (args, goal.prop), prevs)
+        return check_result(goal, ProofTerm('resolve_theorem', (args, goal.prop), prevs))
 
 class intros(Tactic):
     """Given a goal of form !x_1 ... x_n. A_1 --> ... --> A_n --> C,
@@ -185,11 +195,11 @@ class rewrite_goal(Tactic):
         else:
             macro_name = 'rewrite_goal'
         if new_goal.is_equals() and new_goal.lhs == new_goal.rhs:
-            return ProofTerm(macro_name, args=(th_name, C), prevs=prevs)
+            return check_result(goal, ProofTerm(macro_name, args=(th_name, C), prevs=prevs))
         else:
             new_goal = ProofTerm.sorry(Thm(new_goal, goal.hyps))
             assert new_goal.prop != goal.prop, "rewrite: unable to apply theorem"
-            return ProofTerm(macro_name, args=(th_name, C), prevs=[new_goal] + prevs)
+            return check_result(goal, ProofTerm(macro_name, args=(th_name, C), prevs=[new_goal] + prevs))
 
 class rewrite_goal_with_prev(Tactic):
     def get_proof_term(self, goal, *, args=None, prevs=None):
@@ -220,7 +230,7 @@ class rewrite_goal_with_prev(Tactic):
         prevs = list(prevs)
         if not new_goal.is_reflexive():
             prevs.append(ProofTerm.sorry(Thm(new_goal, goal.hyps)))
-        return ProofTerm('rewrite_goal_with_prev', args=C, prevs=prevs)
+        return check_result(goal, ProofTerm('rewrite_goal_with_prev', args=C, prevs=prevs))
 
 class apply_prev(Tactic):
     """Applies an existing fact in the backward direction."""
@@ -256,9 +266,9 @@ class apply_prev(Tactic):
         new_goals = [ProofTerm.sorry(Thm(A, goal.hyps)) for A in inst_As[len(prev_pts):]]
         if set(new_names).issubset({v.name for v in term.get_vars(As)}) and \
            matcher.is_pattern_list(As, []):
-            return ProofTerm('apply_fact', args=None, prevs=prevs + new_goals)
+            return check_result(goal, ProofTerm('apply_fact', args=None, prevs=prevs + new_goals))
         else:
-            return ProofTerm('apply_fact_for', args=inst_arg, prevs=prevs + new_goals)
+            return check_result(goal, ProofTerm('apply_fact_for', args=inst_arg, prevs=prevs + new_goals))
 
 class cases(Tactic):
     """Case checking on an expression."""
